@@ -93,7 +93,7 @@ pub fn op_model(op: &Op, input: &[N], rx: Relax) -> Option<Vec<N>> {
         o.next(f.eval(v))
       }
     }),
-    Op::Tap(_) | Op::Spy(_) | Op::BoxIt | Op::Deaf | Op::Finalize(_) => each!(|v| { o.next(v) }),
+    Op::Tap(_) | Op::Spy(_) | Op::BoxIt | Op::Deaf | Op::Status | Op::Finalize(_) => each!(|v| { o.next(v) }),
     Op::Take(n) => {
       if *n == 0 {
         if rx.take0_completes_at_once {
